@@ -287,7 +287,12 @@ class Interp:
             if op in ("<", "<=", ">", ">=", "==", "!="):
                 if isinstance(a, dict) or isinstance(b, dict):
                     raise NotPure("comparison of records")
-                return {"<": a < b, "<=": a <= b, ">": a > b, ">=": a >= b, "==": a == b, "!=": a != b}[op]
+                if op in ("==", "!="):
+                    return (a == b) if op == "==" else (a != b)
+                try:
+                    return {"<": a < b, "<=": a <= b, ">": a > b, ">=": a >= b}[op]
+                except TypeError:
+                    raise NotPure("ordering of %s and %s" % (type(a).__name__, type(b).__name__))
             hook = self.extern.get("binop")
             if hook is not None:
                 return hook(op, a, b)
@@ -399,6 +404,26 @@ class Interp:
                 return recv
             if m == "map" and len(args) == 1 and isinstance(args[0], tuple) and args[0][0] == "closure" and (recv is None or (isinstance(recv, tuple) and recv[0] == "some")):
                 return None if recv is None else ("some", self.apply_closure(args[0], [recv[1]], depth))
+            is_opt = recv is None or (isinstance(recv, tuple) and len(recv) == 2 and recv[0] == "some")
+            is_err = isinstance(recv, tuple) and len(recv) == 2 and recv[0] == "err"
+            if is_err and m in ("map", "and_then", "inspect") and len(args) == 1:
+                return recv                  # Result::map / and_then leave an Err untouched
+            if is_err and m == "map_err" and len(args) == 1 and isinstance(args[0], tuple) and args[0][0] == "closure":
+                return ("err", self.apply_closure(args[0], [recv[1]], depth))
+            if is_opt and recv is not None and m == "map_err" and len(args) == 1:
+                return recv
+            if (is_opt or is_err) and m == "ok" and not args:
+                return None if is_err else recv
+            if is_opt and m == "and_then" and len(args) == 1 and isinstance(args[0], tuple) and args[0][0] == "closure":
+                return None if recv is None else self.apply_closure(args[0], [recv[1]], depth)
+            if is_opt and m in ("ok_or", "ok_or_else") and len(args) == 1:
+                if recv is not None:
+                    return recv
+                return ("err", self.apply_closure(args[0], [], depth) if m == "ok_or_else" and isinstance(args[0], tuple) and args[0][0] == "closure" else args[0])
+            if (is_opt or is_err) and m == "unwrap_or_else" and len(args) == 1 and isinstance(args[0], tuple) and args[0][0] == "closure":
+                if is_opt and recv is not None:
+                    return recv[1]
+                return self.apply_closure(args[0], [recv[1]] if is_err else [], depth)
             if m == "map_or" and len(args) == 2 and isinstance(args[1], tuple) and args[1][0] == "closure" and (recv is None or (isinstance(recv, tuple) and recv[0] == "some")):
                 return args[0] if recv is None else self.apply_closure(args[1], [recv[1]], depth)
             if m in ("is_some_and", "is_none_or") and len(args) == 1 and isinstance(args[0], tuple) and args[0][0] == "closure" and (recv is None or (isinstance(recv, tuple) and recv[0] == "some")):
